@@ -36,6 +36,10 @@ class CodecRegistry(object):
 
     def add_codec(self, codec: CodecProtocol) -> None:
         """added codecs come on top"""
+        if codec.ref() in self._protocols:
+            # (as for the file codecs: the reference is what a blob records, it stays with the codec that holds it)
+            _logger.warning(f"{codec.ref()} already in protocols, skipping {codec}")
+            return
         self.codecs.insert(0, codec)
         for t in codec.handled_types():
             self._handled_types[t] = codec
